@@ -66,6 +66,16 @@ impl Space for Lists {
             if !v.ok {
                 return v;
             }
+            // the same list with the members of every entry sent in the other order
+            let rlist = reverse_maps(&list);
+            if rlist != list {
+                let wire = if c.path.is_empty() { rlist.clone() } else { treewalk::replaced(&c.wire, &c.path, rlist.clone()) };
+                let mut v = compare(P, &c.target, &wire);
+                if !v.ok {
+                    v.signature.push_str("|entry-members-reversed");
+                    return v;
+                }
+            }
         }
         Verdict::pass()
     }
@@ -75,6 +85,11 @@ impl Space for Lists {
             let wire = if c.path.is_empty() { list.clone() } else { treewalk::replaced(&c.wire, &c.path, list.clone()) };
             if !compare(P, &c.target, &wire).ok {
                 return case_json(&c.target, &wire, json!({"context": c.label, "list": format!("{:?}", list)}));
+            }
+            let rlist = reverse_maps(&list);
+            let rwire = if c.path.is_empty() { rlist.clone() } else { treewalk::replaced(&c.wire, &c.path, rlist.clone()) };
+            if !compare(P, &c.target, &rwire).ok {
+                return case_json(&c.target, &rwire, json!({"context": c.label, "list": format!("{:?}", rlist), "entry members": "reversed"}));
             }
         }
         json!({"kind": "none"})
@@ -209,6 +224,17 @@ pub fn run(ctx: &'static Ctx) {
             long.push((format!("[EdDSA, {}, ES256, {}]", a, a), V::A(vec![param(-8, PUBLIC_KEY), param(a, PUBLIC_KEY), param(-7, PUBLIC_KEY), param(a, PUBLIC_KEY)])));
         }
     }
+    {
+        let rev: Vec<(String, V)> = long.iter().map(|(w, l)| (format!("{} (entry members reversed)", w), reverse_maps(l))).collect();
+        long.extend(rev);
+        // unknown entries carrying extra members, in both member orders
+        for extra in [V::U(0), V::t("x"), V::A(vec![V::U(1), V::U(2)]), V::M(vec![(V::t("a"), V::U(1))])] {
+            let e = |alg: i64, ty: &str| V::M(vec![(V::t("alg"), V::int(alg)), (V::t("type"), V::t(ty)), (V::t("zzextra"), extra.clone())]);
+            let l = V::A(vec![e(-8, "private-key"), e(-7, PUBLIC_KEY), e(-257, PUBLIC_KEY), e(-8, PUBLIC_KEY)]);
+            long.push((format!("entries with an extra member {:?}", extra), l.clone()));
+            long.push((format!("entries with an extra member {:?} (entry members reversed)", extra), reverse_maps(&l)));
+        }
+    }
     let (lr, pr) = (&long, &pctx);
     sweep(ctx, "long parameter lists", (long.len() * pctx.len()) as u64, "lists of 12, 13, 16, 17 and 64 entries: unknown algorithms with the known ones at every ordered pair of positions and every single position; every 3-letter pattern repeated", move |idx, l| {
         let (what, list) = &lr[(idx as usize) / pr.len()];
@@ -312,7 +338,8 @@ pub fn run(ctx: &'static Ctx) {
                 l.fail(ctx, idx, v, || case_json(&alone, &list, json!({"context": "alone:filteredParams", "list": format!("[{}, EdDSA]", x)})));
             }
         };
-        if ctx.thorough() {
+        // the filter does not depend on a feature: the complete range runs in two configurations
+        if ctx.thorough() && matches!(crate::cfg_name(), "cfg-000" | "cfg-111") {
             sweep(ctx, "every 32-bit algorithm identifier", 1u64 << 32, "complete: [{alg: x, type: public-key}, EdDSA] for every x in the signed 32-bit range, stand-alone list", |idx, l| one(idx as i64 + i32::MIN as i64, l, idx));
         } else {
             let small = (1u64 << 18) + 1;
@@ -378,6 +405,24 @@ pub fn run(ctx: &'static Ctx) {
     for len in [31usize, 32, 33, 64, 255, 256, 300] {
         flong.push((format!("unknown name of {} bytes", len), V::A(vec![V::t("packed"), V::t(&fill_text(len, 7)), V::t("none")])));
         flong.push((format!("unknown wide name of {} bytes", len), V::A(vec![V::t(&crate::refmodel::fill_wide(len, 2)), V::t("none")])));
+    }
+    // unknown names with a multi-byte character lying across every offset 8..=40 and 60..=68
+    for width in [2usize, 3, 4] {
+        for off in (8usize..=40).chain(60..=68) {
+            for k in 1..width {
+                let mut s = "u".repeat(off - k);
+                s.push_str(&crate::refmodel::fill_wide(width, width));
+                s.push_str("tail");
+                flong.push((format!("unknown name with a {}-byte character across offset {}", width, off), V::A(vec![V::t("none"), V::t(&s), V::t("packed")])));
+            }
+        }
+    }
+    // known names continued by a character of every width (prefix of an unknown name)
+    for base in ["packed", "none"] {
+        for c in ['2', '\u{e9}', '\u{20ac}', '\u{1f600}', '\u{0}', ' '] {
+            flong.push((format!("{} followed by U+{:04X}", base, c as u32), V::A(vec![V::t(&format!("{}{}", base, c)), V::t("none")])));
+            flong.push((format!("U+{:04X} followed by {}", c as u32, base), V::A(vec![V::t(&format!("{}{}", c, base)), V::t("packed")])));
+        }
     }
     let (flr, fcr) = (&flong, &fctx2);
     sweep(ctx, "long attestation format lists", (flong.len() * fctx2.len()) as u64, "lists of 12, 13, 64 entries with packed / none at every ordered pair of positions among unknown names; lists of 254..=1000 entries; unknown names of 31..=300 bytes", move |idx, l| {
